@@ -123,6 +123,64 @@ func VerifC14Tamper() {
 	verif_reach("C14.tamper.accepted")
 }
 
+// VerifC14Slide: the reference window follows the log. Key window 2 and reference window R = 2 on each side (equal, as
+// the defaults 100 / 100 are: at registration the references are computed around the counter AFTER the key window). The receiver
+// registers the sender at counter 0, then receives messages 1..j through the log in order, updating the references after
+// each one as MessageStore.processMessage does. A push payload for message k -- any k strictly inside the reference
+// window around the last counter seen (j-2 < k < j+2) that is openable through the log at that moment -- opens offline to
+// the original payload, and says truthfully whether the log delivered it before.
+func VerifC14Slide(j int) {
+	ctx := verif_background()
+	mk := func(name string) *secretStore {
+		s, err := newSecretStore(verif_datastore(name), &NewSecretStoreOptions{Keystore: verifKeystore(name), PreComputedKeysCount: 2, PrecomputeOutOfStoreGroupRefsCount: 2})
+		verif_assume(err == nil && s != nil)
+		return s
+	}
+	snd, rcv := mk("snd"), mk("rcv")
+	g := verifGroup(snd, rcv, 3)
+	gpk, err := g.GetPubKey()
+	verif_assume(err == nil)
+	verif_assume(rcv.PutGroup(ctx, g) == nil)
+	sndMD, rcvMD := verifLink(ctx, snd, rcv, g)
+	devRaw, _ := sndMD.Device().Raw()
+	total := j + 1
+	envs := make([][]byte, total+1)
+	pays := make([][]byte, total+1)
+	for i := 1; i <= total; i++ {
+		pays[i], _ = proto.Marshal(&protocoltypes.EncryptedMessage{Plaintext: verif_anyBytesNonNil("plain")})
+		envs[i], err = snd.SealEnvelope(ctx, g, pays[i])
+		verif_assume(err == nil)
+	}
+	for i := 1; i <= j; i++ {
+		e, h, err := rcv.OpenEnvelopeHeaders(envs[i], g)
+		verif_assume(err == nil)
+		_, err = rcv.OpenEnvelopePayload(ctx, e, h, gpk, rcvMD.Device(), verif_cidN(i))
+		verif_assert(err == nil, "C14.slide: in-order log delivery opens")
+		verif_assert(rcv.UpdateOutOfStoreGroupReferences(ctx, h.DevicePk, h.Counter, g) == nil, "C14.slide: references follow the log")
+	}
+	k := verif_anyInt("k")
+	verif_assume(k >= 1 && k <= total && k > j-2 && k < j+2)
+	e, h, err := rcv.OpenEnvelopeHeaders(envs[k], g)
+	verif_assume(err == nil)
+	oos, err := snd.SealOutOfStoreMessageEnvelope(verif_cidN(k), e, h, g)
+	verif_assert(err == nil, "C14.slide: push payload is sealed")
+	if err != nil {
+		return
+	}
+	push, err := proto.Marshal(oos)
+	verif_assume(err == nil)
+	m, grp, clear, already, err := rcv.OpenOutOfStoreMessage(ctx, push)
+	verif_assert(err == nil, "C14.slide: a push for a message inside the reference window around the last counter seen opens offline")
+	if err != nil {
+		return
+	}
+	verif_assert(verif_bytesEq(clear, pays[k]), "C14.slide: opens to the original payload")
+	verif_assert(m.Counter == uint64(k) && verif_bytesEq(m.DevicePk, devRaw), "C14.slide: reports sender device and counter")
+	verif_assert(grp != nil && verif_bytesEq(grp.PublicKey, g.PublicKey), "C14.slide: reports the group")
+	verif_assert(already == (k <= j), "C14.slide: AlreadyReceived is true exactly when the log path opened the message before")
+	verif_reach("C14.slide.ok")
+}
+
 func VerifC14Witness() {
 	VerifC14Push(0, 1)
 	verif_assert(false, "C14.witness: reachable")
